@@ -173,6 +173,51 @@ def genx_def(i: int):
     return body
 
 
+def _relax(items, rng, top):
+    """F relaxed: drop (seeded) the event that separates two consecutive
+    blocks and the event a fork branch / loop body begins with when a block
+    follows it."""
+    out = []
+    for it in items:
+        if it[0] in ("and", "or", "xor"):
+            it = [it[0], [_relax(b, rng, False) for b in it[1]]]
+        elif it[0] == "loop":
+            it = ["loop", _relax(it[1], rng, False)]
+        out.append(it)
+    blocks = ("and", "or", "xor", "loop")
+    res = []
+    for k, it in enumerate(out):
+        nxt = out[k + 1][0] if k + 1 < len(out) else None
+        prv = res[-1][0] if res else None
+        if it[0] == "ev" and nxt in blocks:
+            if prv in blocks and rng.random() < 0.5:
+                continue          # two blocks back to back
+            if prv is None and not top and rng.random() < 0.4:
+                continue          # branch / body begins with a block
+        res.append(it)
+    return res
+
+
+def geny_def(i: int):
+    """Second extension family (C03, C05, C07 only): fragment F with the
+    separation rules relaxed - blocks back to back, fork branches and loop
+    bodies that begin with a block (the corpus has such shapes: bunched
+    forks).  Outside the literal quantifier of C01/C02."""
+    seed = int.from_bytes(
+        hashlib.sha256(f"{GEN_SALT}|defy|{i}".encode()).digest()[:8], "big"
+    )
+    pr = gen_params(i + 2 * 10**6)
+    relaxed = None
+    for attempt in range(12):
+        rng = random.Random(seed + attempt)
+        g = Gen(rng, **pr)
+        body = g.seq(0, False, False, top=True)
+        relaxed = _relax(body, rng, True)
+        if relaxed != body:
+            break
+    return relaxed
+
+
 # ---------------------------------------------------------------------------
 # structural exclusion rules (DESIGN.md 3.1 / section 9): classes of
 # definitions on which the pinned tree genuinely violates C01/C02/C05; one
@@ -278,6 +323,8 @@ def load_workload(wid: str):
         return gen_def(int(rest))
     if kind == "genx":
         return genx_def(int(rest))
+    if kind == "geny":
+        return geny_def(int(rest))
     if kind == "corpus":
         path = os.path.join(REPO, "end-to-end-pumls", rest)
         return puml_sem.parse(open(path).read())[1]
